@@ -15,17 +15,26 @@ ROT3 = {"z345": ([[4, -3, 0], [3, 4, 0], [0, 0, 5]], 5), "x345": ([[5, 0, 0], [0
 SPACES = {"x": 2, "u": 1, "y": 3, "z": 1, "t": 1, "k": 1}
 
 
-def mk_fun(av, scalar=False):
+OFFSET = [None]      # build the same expression far from the origin: every POSITION form gets OFFSET[0][i] added to its i-th component
+
+
+def mk_pos(av):
+    """mk_fun for positions (centres, corners, interval ends, pivots): shifted by OFFSET when a far copy is built"""
+    return mk_fun(av, pos=True)
+
+
+def mk_fun(av, scalar=False, pos=False):
     """list of affine forms -> constant (list / float) or a function of exactly the free variables"""
     forms = av if isinstance(av, list) else [av]
     vs = aff_vars(forms)
     K = SCALE[0]
+    off = OFFSET[0] if (pos and OFFSET[0]) else [0.0] * len(forms)
     if not vs:
-        vals = [a["c"] / 4.0 * K for a in forms]
+        vals = [a["c"] / 4.0 * K + off[i] for i, a in enumerate(forms)]
         return vals[0] if (scalar or not isinstance(av, list)) else vals
     terms = []
-    for a in forms:
-        expr = "%r" % (a["c"] / 4.0 * K)
+    for i_, a in enumerate(forms):
+        expr = "%r" % (a["c"] / 4.0 * K + off[i_])
         for n, s in slopes(a).items():
             expr += " + %r*%s" % (float(s), n)
         expr += " + 0.0*%s" % vs[0]          # keep the batch shape for constant components
@@ -70,6 +79,19 @@ def build_scaled(e, k):
         SCALE[0] = 1.0
 
 
+FAR = [1000000.0, 2000000.0, -500000.0]
+
+
+def build_far(e):
+    """the same expression moved far away from the origin (every position by FAR: quarter units stay exactly representable in single precision); only for expressions without polygons, meshes,
+    translations and rotations (their vectors / pivots would need the same treatment)"""
+    OFFSET[0] = FAR
+    try:
+        return build(e)
+    finally:
+        OFFSET[0] = None
+
+
 def build_split(e):
     """the same expression over the product space x1 * x2 (only for expressions whose single space variable is x)"""
     SPLIT[0] = True
@@ -83,17 +105,17 @@ def build(e):
     k = e["k"]
     D = tp.domains
     if k == "interval":
-        return D.Interval(space_of(e["v"]), mk_fun(e["lo"]), mk_fun(e["hi"]))
+        return D.Interval(space_of(e["v"]), mk_pos(e["lo"]), mk_pos(e["hi"]))
     if k == "point":
-        return D.Point(space_of(e["v"]), mk_fun(e["p"]))
+        return D.Point(space_of(e["v"]), mk_pos(e["p"]))
     if k == "par":
-        return D.Parallelogram(space_of(e["v"]), mk_fun(e["o"]), mk_fun(e["a"]), mk_fun(e["b"]))
+        return D.Parallelogram(space_of(e["v"]), mk_pos(e["o"]), mk_pos(e["a"]), mk_pos(e["b"]))
     if k == "tri":
-        return D.Triangle(space_of(e["v"]), mk_fun(e["o"]), mk_fun(e["a"]), mk_fun(e["b"]))
+        return D.Triangle(space_of(e["v"]), mk_pos(e["o"]), mk_pos(e["a"]), mk_pos(e["b"]))
     if k == "circle":
-        return D.Circle(space_of(e["v"]), mk_fun(e["c"]), mk_fun(e["r"]))
+        return D.Circle(space_of(e["v"]), mk_pos(e["c"]), mk_fun(e["r"]))
     if k == "sphere":
-        return D.Sphere(space_of(e["v"]), mk_fun(e["c"]), mk_fun(e["r"]))
+        return D.Sphere(space_of(e["v"]), mk_pos(e["c"]), mk_fun(e["r"]))
     if k == "poly":         # constant rings of quarter-unit vertices: ring 1 exterior, the others holes
         from torchphysics.problem.domains.domain2D.shapely_polygon import ShapelyPolygon      # not re-exported (optional dependency)
         K = SCALE[0]
